@@ -8,7 +8,7 @@ def p_parts():
     from ._partial import p_partial
     from ._handles import p_handles
     from ._generic import optional_parts
-    return [p_partial, p_handles] + optional_parts(("_readoptions", "p_readoptions"), ("_pages", "p_catlabels"), ("_makemeta", "p_makemeta"))
+    return [p_partial, p_handles] + optional_parts(("_readoptions", "p_readoptions"), ("_pages", "p_catlabels"), ("_makemeta", "p_makemeta"), ("_pathconv", "p_read_partitions"), ("_header", "p_header"))
 
 
 def run(ctx):
